@@ -65,8 +65,14 @@ class InfoFilePersister:
                 yield Succeeded(TrashedFile(trashinfo_path),
                                 ".trashinfo created as %s." % trashinfo_path)
             except OSError as e:
-                if e.errno == errno.ENAMETOOLONG:
+                if e.errno == errno.ENAMETOOLONG and not name_too_long:
                     name_too_long = True
+                elif e.errno not in (errno.EEXIST, None):
+                    # only a name collision is cured by trying the next name
+                    # (an error without errno, as raised by in-memory file
+                    # systems, counts as one): any other error would be
+                    # retried forever
+                    raise
                 yield NeedsMoreAttempts(trashinfo_path,
                                         "attempt for creating %s failed." % trashinfo_path)
 
